@@ -53,7 +53,7 @@ namespace
 using namespace celeritas;
 using LD = long double;
 constexpr LD eps = 1.1102230246251565e-16L;
-constexpr LD KT = 32;
+constexpr LD KT = 64;
 constexpr LD pi_ld = 3.14159265358979323846264338327950288L;
 
 char const* intern(std::string const& s)
@@ -283,13 +283,18 @@ struct XfRef
     // |R~^-1| (1,|x'|): first-order bound vector for the rounding chain
     void chain_vec(LD const xp[3], LD v[4]) const
     {
+        // Norm-wise (not component-wise): R is orthonormal only to a few
+        // eps, and R^T R - I mixes all coordinates even when |R| ~ I.
         v[0] = 1;
+        LD s = 0;
+        for (int j = 0; j < 3; ++j)
+            s += fabsl(xp[j]) + fabsl(t[j]);
         for (int i = 0; i < 3; ++i)
         {
-            LD s = 0;
+            LD col = 0;
             for (int j = 0; j < 3; ++j)
-                s += fabsl(R[j][i]) * (fabsl(xp[j]) + fabsl(t[j]));
-            v[i + 1] = s;
+                col = std::max(col, fabsl(R[j][i]));
+            v[i + 1] = s * std::max(col, (LD)0.5);
         }
     }
 };
@@ -1186,7 +1191,7 @@ Verdict k_quadric(Choices& c, CaseLog& log)
             for (int i = 0; i < 3; ++i)
                 hit = hit || (sq->first()[i] * tl->translation()[i] != 0);
             if (hit)
-                known_key = "F12-sq-translate-constant-term";
+                known_key = "F26-sq-translate-constant-term";
         }
     }
 
@@ -1200,7 +1205,7 @@ Verdict k_quadric(Choices& c, CaseLog& log)
             for (int i = 0; i < 3; ++i)
                 hit = hit || (sq->first()[i] * tl->translation()[i] != 0);
             if (hit)
-                known_key_inv = "F12-sq-translate-constant-term";
+                known_key_inv = "F26-sq-translate-constant-term";
         }
     }
 
@@ -1345,8 +1350,14 @@ Verdict k_quadric(Choices& c, CaseLog& log)
             // (4) inverse transform of the transformed surface at p
             LD vinvv[4];
             refinv.chain_vec(Pl, vinvv);
+            // (R is orthonormal only to a few eps, so T^-1 T differs from the
+            // identity by ~eps (|x| + |t|): last term)
+            LD tn = fabsl(ref.t[0]) + fabsl(ref.t[1]) + fabsl(ref.t[2]);
+            LD sn = fabsl(Pl[0]) + fabsl(Pl[1]) + fabsl(Pl[2]) + tn;
+            LD vt[4] = {1, sn, sn, sn};
             LD lim3 = 2 * pt.noise + 2 * KT * eps * qS1.eval_abs(vinvv)
-                      + 2 * KT * eps * qS.eval_abs(v0);
+                      + 2 * KT * eps * qS.eval_abs(v0)
+                      + 2 * KT * eps * qS.eval_abs(vt);
             if (fabsl(f0) > lim3)
             {
                 SignedSense ss = sense_of(S3, P);
@@ -1545,9 +1556,9 @@ Verdict k_involute(Choices& c, CaseLog& log)
         {
             std::string key;
             if (f15)
-                key = "F15-involute-cw-translate-angle";
+                key = "F29-involute-cw-translate-angle";
             else if (e.sense < 0 && int(ss) > 0 && f14_class(ref, Xo, Yo))
-                key = "F14-involute-cw-negative-angle-sense";
+                key = "F28-involute-cw-negative-angle-sense";
             return log.fail(
                 "sense of translated involute at x' is "
                     + std::to_string(int(ss)) + " but the reference sense of "
@@ -1564,7 +1575,7 @@ Verdict k_involute(Choices& c, CaseLog& log)
                         "(angle "
                             + fmt(s.displacement_angle()) + " -> "
                             + fmt(s1->displacement_angle()) + ")",
-                        f15 ? "F15-involute-cw-translate-angle" : "");
+                        f15 ? "F29-involute-cw-translate-angle" : "");
     log.nontrivial = n_in > 0 && n_out > 0;
     return Verdict::pass;
 }
